@@ -108,3 +108,45 @@ package plot
 //@     invariant len(data) + len(points) - rangeindex - 1 == rows && fresh(data) && (forall k int :: 0 <= k && k < len(data) ==> len(data[k]) == size)
 //@   loop 5
 //@     invariant -1 <= rangeindex && rangeindex < len(pt) && len(pt) == size && fresh(pt)
+
+// Plot.Add as the plot command uses it: the result goes to the series of its attack name. The
+// sequence-number discipline labeledSeries.add requires of its input (each number once, timestamps in
+// sequence order) is the property's own domain restriction: callee preconditions are assumed here
+// (pragma obligations contract), the frame and the dispatch are proved.
+//@ func newLabeledSeries
+//@   property C17
+//@   ensures result != nil && fresh(result) && result.buf != nil && fresh(result.buf) && result.series != nil && fresh(result.series) && result.label == label && result.seq == 0 && len(result.buf) == 0 && len(result.series) == 0
+//@ func (*Plot).Add
+//@   property C17
+//@   pragma obligations contract
+//@   returns (err)
+//@   requires [non-nil] p != nil && r != nil
+//@   modifies p.series[*], p.series[r.Attack].buf[*], p.series[r.Attack].series[*], any(plot.labeledSeries), any(plot.timeSeries), any(tsz.Series)
+//@   ensures [dispatched-by-attack-name] has(p.series, r.Attack) && p.series[r.Attack] != nil
+//@   ensures [other-attacks-keep-their-series] forall a string :: a != r.Attack ==> has(p.series, a) == old(has(p.series, a)) && p.series[a] == old(p.series[a])
+
+// What the plot command needs from the rest of the API (thin, trusted: their bodies - option closures,
+// HTML templating, tsz.Finish - are not modelled).
+//@ func Title
+//@   property C17
+//@   ensures result != nil
+//@ func Downsample
+//@   property C17
+//@   ensures result != nil
+//@ func Label
+//@   property C17
+//@   ensures result != nil
+//@ func New
+//@   property C17
+//@   trusted
+//@   ensures result != nil && fresh(result)
+//@ func (*Plot).Close
+//@   property C17
+//@   trusted
+//@   requires [non-nil] p != nil
+//@   modifies any(tsz.Series)
+//@ func (*Plot).WriteTo
+//@   property C17
+//@   trusted
+//@   returns (n, err)
+//@   requires [non-nil] p != nil
